@@ -16,6 +16,10 @@ RULE = ("gain vectors of 1..12 entries (log-uniform over 12 decades; classes "
         "within 1e-12..1e-3 (relative) of a switching point; non-trivial = (>=2 channels and "
         "at least one channel switched off) or Es != 1; distinct = SHA-1 of "
         "the case description")
+RULE += (" Added after the white-box review: total power and noise "
+         "optionally x 1e-30..1e20, the scalars optionally as Python ints, "
+         "gain vectors of 33..2048 entries in one case of ten ")
+
 LEVEL_TEXT = ("Generated-input search (Hypothesis, seeded, sharded) over gain "
               "vectors, powers, noise and symbol energies against four "
               "independent oracles: KKT level equation for the returned "
